@@ -234,6 +234,24 @@ func c09ShedRun(r *zsim.Run) {
 		}
 		forceOverload = false
 		r.Probe("burst_drain_burst")
+		// the CPU is fine again while many slow requests are still in flight: arrivals keep coming; once the last
+		// overloaded reading is a second old nothing may be shed any more
+		done = 0
+		for c := 0; c < k; c++ {
+			c := c
+			r.Go(fmt.Sprintf("slow%d", c), func() {
+				defer func() { done++ }()
+				request(c, 4*time.Second, false)
+			})
+		}
+		for i := 0; i < 30 && !r.Failed(); i++ {
+			zsim.Sleep(100 * time.Millisecond)
+			request(k, time.Millisecond, false)
+		}
+		if !r.WaitFor(30*time.Minute, 10*time.Millisecond, func() bool { return done == k }) {
+			r.Failf("callers-blocked", "callers blocked: %v", r.Alive(false))
+			return
+		}
 		done = callers
 	}
 	for c := 0; c < callers && !scripted; c++ {
